@@ -450,6 +450,16 @@ import re as _re
 _IP6_STRUCTURAL = _re.compile(r"[0-9a-fA-F:]+")
 
 
+_HEXGROUP = _re.compile(r"[0-9a-fA-F]+")
+
+
+def _ip6_group_not_hex(text):
+  groups = text.split(":")
+  if "." in groups[-1]:
+    groups = groups[:-1]
+  return any(g and not _HEXGROUP.fullmatch(g) for g in groups)
+
+
 def case_ip6bad(c, out):
   A, U = _mods()
   text, must = c["text"], c.get("must_raise", False)
@@ -475,6 +485,12 @@ def case_ip6bad(c, out):
     out.label("ip6text-structural-must-raise")
     if not r:
       out.fail("ip6-malformed-accepted", "IPAddr6(%r) returned %s" % (text, v), cls="colon-structure")
+  elif ref is None and "%" not in text and "/" not in text and _ip6_group_not_hex(text):
+    # some colon-separated group (other than a final dotted IPv4 part) contains a character that is not a
+    # hexadecimal digit ('+1', '0x1', '1_0', ' 1', a non-ASCII digit): no reading of RFC 4291 makes that a group
+    out.label("ip6text-group-not-hex-must-raise")
+    if not r:
+      out.fail("ip6-malformed-accepted", "IPAddr6(%r) returned %s" % (text, v), cls="group-not-hex")
   else:
     # includes RFC 4007 zone suffixes ('%eth0'), which ipaddress accepts and POX does not claim to
     out.label("ip6text-ambiguous-not-judged")
@@ -971,9 +987,17 @@ _IP6_AMBIG = [":::", "1:2:3:4:5:6:7:8::", "::1:2:3:4:5:6:7:8", ":1:2:3:4:5:6:7",
               ":1::", ":1::2", "1::2:", "::1:", ":", "1:", ":1", "1::2:3:4:5:6:7:8", "::00008", "1:2:3:4:5:6:7:8:"]
 
 
+_NOT_HEX_GROUPS = ["+1", "-1", "0x1", "0X1f", "1_0", " 1", "1 ", "\t1", "1\n", "\u0663", "1\u0661", "\uff11", "g", "1g", "+", "0x", "_1", "1_", "++1", "1e+1", "1.", "0b1", "0o7", "1L", "\xb2"]
+
+
 def enum_ip6bad(tier):
   for t, cls in _IP6_BAD:
     yield {"k": "ip6bad", "text": t, "must_raise": True, "cls": cls}
+  for g in _NOT_HEX_GROUPS:
+    for tmpl in ("%s::", "::%s", "1::%s", "%s::1", "1:2:3:4:5:6:7:%s", "%s:2:3:4:5:6:7:8", "1:2:3:%s:5:6:7:8", "::%s:1.2.3.4", "%s::1.2.3.4"):
+      if "." in g and tmpl.endswith("%s"):
+        continue          # would read as a (bad) dotted part, a different class
+      yield {"k": "ip6bad", "text": tmpl % g}
   for t in _IP6_AMBIG:
     yield {"k": "ip6bad", "text": t}
 
@@ -1165,6 +1189,7 @@ def _strategy(tier):
     _raw(4).map(lambda r: {"k": "ip6", "raw": b"\0" * 10 + b"\xff\xff" + r, "mac": None}),
     _s_ip6text(), _s_ip6text(),
     st.text(_TEXT_ALPHABET6, max_size=30).map(lambda t: {"k": "ip6bad", "text": t}),
+    _s_ip6_decorated(),
     _s_net(128, "ip6net", _STYLES6), _s_cidr(128, "ip6cidr", ["cidr", "mask", "plain"]), _s_badmask(128, "ip6badmask"),
     st.tuples(_raw(6), st.lists(st.sampled_from([1, 2]), min_size=6, max_size=6)).map(lambda t: {"k": "eth", "raw": t[0], "shape": t[1]}),
     cmp_s,
@@ -1173,6 +1198,26 @@ def _strategy(tier):
     st.tuples(_u(64), st.booleans()).map(lambda t: {"k": "dpid", "v": t[0], "long": t[1]}),
     _s_cmpcross(),
   )
+
+
+def _s_ip6_decorated():
+  """A well-formed IPv6 text with one group replaced by something int(x, 16) would swallow but that is not hex."""
+  grp = st.integers(0, 0xffff).map(lambda v: "%x" % v)
+  deco = st.one_of(st.sampled_from(_NOT_HEX_GROUPS),
+                   st.tuples(st.sampled_from(["+", "0x", "0X", " ", "\t", "_"]), grp).map(lambda t: t[0] + t[1]),
+                   st.tuples(grp, st.sampled_from([" ", "\n", "_", "\u0660"])).map(lambda t: t[0] + t[1]),
+                   st.tuples(st.sampled_from("123456789abcdef"), st.sampled_from("0123456789abcdef")).map(lambda t: t[0] + "_" + t[1]))
+  def build(t):
+    groups, pos, d, compress = t
+    g = list(groups)
+    g[pos] = d
+    if compress and pos >= 2:
+      return "::" + ":".join(g[pos:])
+    if compress and pos <= 5:
+      return ":".join(g[:pos + 1]) + "::"
+    return ":".join(g)
+  return st.tuples(st.lists(grp, min_size=8, max_size=8), st.integers(0, 7), deco, st.booleans()).map(build).filter(
+      lambda t: "." not in t.split(":")[-1]).map(lambda t: {"k": "ip6bad", "text": t})
 
 
 def _s_cmpcross():
